@@ -1522,3 +1522,185 @@ pub async fn probe_reuse_during_cleanup() -> (String, Vec<String>) {
   c.pump(10).await;
   (c.log, fails)
 }
+
+/// Suite `readers` (C01 / C02 / C04 — correspondence with `Model/MicroB.lean`): BROADCAST and MEMBERS requests issued while a
+/// JOIN or LEAVE on the same channel is suspended in its modulator notification (holding the channel's write lock).  The
+/// harness observes whether the reader is answered before the writer finishes (it must not be), and which member list it then
+/// works with: the recipients of the broadcast (plus the sender) or the list MEMBERS returns.  The Lean driver replays the same
+/// schedule on the product model and prints the reader's state after each compared step.
+pub async fn run_readers_suite(seed: u64, cases: usize) -> String {
+  let mut master = Rng::new(seed ^ 0x7ead);
+  let mut out = String::new();
+  let mut stats: BTreeMap<String, u64> = BTreeMap::new();
+  for case in 0..cases {
+    let rng = master.fork();
+    let mut cfg = SrvCfg::default();
+    cfg.max_channels = 100;
+    cfg.max_clients = 100;
+    cfg.max_subs = 100;
+    cfg.request_timeout_ms = 3_600_000;
+    cfg.modulator = Some(vec![Operation::ForwardEvent]);
+    let srv = Srv::new(cfg.clone()).await;
+    let modu = srv.modulator.clone().unwrap();
+    let mut c = Case {
+      auth: false,
+      srv,
+      rng,
+      user: BTreeMap::new(),
+      dead: BTreeSet::new(),
+      closing: BTreeSet::new(),
+      inbox: BTreeMap::new(),
+      sent: Vec::new(),
+      next_id: 10,
+      log: String::new(),
+      fails: Vec::new(),
+    };
+    let mut t = String::new();
+    let _ = writeln!(t, "case {case}");
+    let mut conn_of: BTreeMap<usize, usize> = BTreeMap::new();
+    for (i, u) in MUSERS.iter().enumerate() {
+      let k = c.open_identify(u).await;
+      conn_of.insert(i + 1, k);
+    }
+    let chan = full(CHANS[0]);
+    let mut next_task = 0usize;
+    let mut next_reader = 0usize;
+    // initial membership, with the modulator answering at once
+    let mut order: Vec<usize> = vec![1, 2, 3];
+    for i in (1..order.len()).rev() {
+      let j = c.rng.below(i as u64 + 1) as usize;
+      order.swap(i, j);
+    }
+    for u in order {
+      if c.rng.chance(3, 5) {
+        let id = c.id();
+        c.request(conn_of[&u], Req::Join { id, chan: chan.clone(), ob: None }).await;
+        let _ = writeln!(t, "bj spawn {next_task} join {u} 0\nbj run {next_task}\nbj run {next_task} ok");
+        next_task += 1;
+      }
+    }
+    modu.set_hold(true);
+    let rounds = c.rng.range(2, 4);
+    for _ in 0..rounds {
+      let live: Vec<usize> = conn_of.iter().filter(|(_, k)| !c.dead.contains(k)).map(|(u, _)| *u).collect();
+      if live.len() < 2 {
+        break;
+      }
+      // the writer
+      let x = live[c.rng.below(live.len() as u64) as usize];
+      let join = c.rng.chance(1, 2);
+      let wid = c.id();
+      let ti = next_task;
+      next_task += 1;
+      if join {
+        c.request(conn_of[&x], Req::Join { id: wid, chan: chan.clone(), ob: None }).await;
+      } else {
+        c.request(conn_of[&x], Req::Leave { id: wid, chan: chan.clone(), ob: None }).await;
+      }
+      let _ = modu.parked_live();
+      let parked = modu.parked().iter().any(|d| d.starts_with("event "));
+      let _ = writeln!(t, "bj spawn {ti} {} {x} 0\nbi run {ti}\nimpl st {}", if join { "join" } else { "leave" }, if parked { format!("{ti}:P") } else { String::new() });
+      *stats.entry(format!("writer-{}-{}", if join { "join" } else { "leave" }, if parked { "parked" } else { "answered" })).or_insert(0) += 1;
+      // the reader: another live user
+      let others: Vec<usize> = live.iter().copied().filter(|u| *u != x).collect();
+      let y = others[c.rng.below(others.len() as u64) as usize];
+      let bcast = c.rng.chance(3, 5);
+      let rid = c.id();
+      let ri = next_reader;
+      next_reader += 1;
+      let payload = format!("rd{case}-{rid}").into_bytes();
+      let marks: BTreeMap<usize, usize> = conn_of.iter().map(|(u, k)| (*u, c.inbox.get(k).map(|v| v.len()).unwrap_or(0))).collect();
+      if bcast {
+        c.request(conn_of[&y], Req::Broadcast { id: rid, chan: chan.clone(), qos: None, payload: payload.clone() }).await;
+      } else {
+        c.request(conn_of[&y], Req::Members { id: rid, chan: chan.clone(), page: None, size: None }).await;
+      }
+      // the modulator's payload gate comes before the channel manager: let the payload through at once
+      if let Some(pi) = modu.parked().iter().position(|d| d.starts_with("payload ")) {
+        modu.release(pi, true);
+      }
+      c.pump(4).await;
+      let conns_now = conn_of.clone();
+      let observe = |c: &Case| -> String {
+        let conn_of = &conns_now;
+        let k = conn_of[&y];
+        let reps = c.replies(k, rid);
+        let Some(f) = reps.first() else { return "rd wait".to_string() };
+        match &f.msg {
+          Message::Error(p) => match p.reason.as_ref() {
+            "CHANNEL_NOT_FOUND" => "rd notfound".into(),
+            "FORBIDDEN" | "USER_NOT_IN_CHANNEL" => "rd notmember".into(),
+            other => format!("rd error({other})"),
+          },
+          Message::ListMembersAck(p) => {
+            let mut us: Vec<usize> =
+              p.members.iter().filter_map(|m| MUSERS.iter().position(|mu| m.to_string().starts_with(&format!("{mu}@"))).map(|i| i + 1)).collect();
+            us.sort();
+            format!("rd ok:{}", us.iter().map(|u| u.to_string()).collect::<Vec<_>>().join(","))
+          },
+          Message::BroadcastAck(_) => {
+            // who was sent this payload, plus the sender
+            let mut us: Vec<usize> = vec![y];
+            for (u, k) in conn_of {
+              let from = marks[u];
+              let got = c.inbox.get(k).map(|v| v[from.min(v.len())..].iter().filter(|f| matches!(f.msg, Message::Message(_)) && f.payload.as_deref() == Some(&payload[..])).count()).unwrap_or(0);
+              for _ in 0..got {
+                us.push(*u);
+              }
+            }
+            us.sort();
+            format!("rd ok:{}", us.iter().map(|u| u.to_string()).collect::<Vec<_>>().join(","))
+          },
+          _ => format!("rd other({})", f.text.split_whitespace().next().unwrap_or("?")),
+        }
+      };
+      let _ = writeln!(t, "bj rspawn {ri} {y} 0\nbi rrun {ri}\nimpl {}", observe(&c));
+      *stats.entry(format!("reader-{}", if bcast { "broadcast" } else { "members" })).or_insert(0) += 1;
+      // the writer's notification returns
+      if parked {
+        // a refused JOIN notification ends the requester's connection; LEAVEs are always acknowledged here
+        let ok = !join || c.rng.chance(2, 3);
+        let wi = modu.parked().iter().position(|d| d.starts_with("event ")).unwrap_or(0);
+        modu.release(wi, ok);
+        c.pump(1).await;
+        let _ = modu.parked_live();
+        if std::env::var("MICRO_TRACE").is_ok() {
+          eprintln!("parked after release: {:?}", modu.parked());
+        }
+        if !join && modu.parked().iter().any(|d| d.starts_with("event MEMBER_JOINED") && d.ends_with("owner=true")) {
+          // the hand-over announcement of a LEAVE by the owner: the lock is still held
+          let _ = writeln!(t, "bj run {ti} ok owner\nbi rrun {ri}\nimpl {}", observe(&c));
+          let hi = modu.parked().iter().position(|d| d.starts_with("event ")).unwrap_or(0);
+          modu.release(hi, true);
+          c.pump(1).await;
+          let _ = writeln!(t, "bj run {ti} ok");
+          *stats.entry("handover".into()).or_insert(0) += 1;
+        } else {
+          let _ = writeln!(t, "bj run {ti} {}", if ok { "ok" } else { "fail" });
+        }
+        *stats.entry(format!("release-{}", if ok { "ok" } else { "fail" })).or_insert(0) += 1;
+        if !ok {
+          c.pump(2).await;
+          if c.dead.contains(&conn_of[&x]) {
+            let _ = writeln!(t, "bj cleanup {x}");
+            conn_of.remove(&x);
+          }
+        }
+      }
+      c.pump(2).await;
+      let res = observe(&c);
+      let _ = writeln!(t, "bi rrun {ri}\nimpl {res}");
+      *stats.entry(format!("result-{}", res.split(':').next().unwrap_or("").replace("rd ", ""))).or_insert(0) += 1;
+      if res == "rd wait" {
+        // the statement itself (C13 / C02): with no writer left the reader must have been answered
+        let _ = writeln!(t, "oracle-failure case={case} C02: a {} issued while a {} of the same channel was suspended in its notification is still unanswered after that request finished", if bcast { "BROADCAST" } else { "MEMBERS" }, if join { "JOIN" } else { "LEAVE" });
+      }
+    }
+    if std::env::var("MICRO_TRACE").is_ok() {
+      eprintln!("==== case {case}\n{}", c.log);
+    }
+    out.push_str(&t);
+  }
+  let _ = writeln!(out, "stats {{\"suite\":\"readers\",\"seed\":{seed},\"cases\":{cases},\"ops\":{}}}", crate::js_map(&stats));
+  out
+}
